@@ -325,6 +325,10 @@ func (p *sortProcessor) GetFinalResultIfExists() (*iqr.IQR, bool) {
 			// resultsSoFar if we know we'll Rewind() and return it later.
 			log.Warnf("sortProcessor.GetFinalResultIfExists: resultsSoFar has %d records, but finalNumRecs is %d",
 				p.resultsSoFar.NumberOfRecords(), p.finalNumRecs)
+			// The input gets processed again, so start over; merging it into the
+			// modified results would return some records twice.
+			p.resultsSoFar = nil
+			p.hasFinalResult = false
 			return nil, false
 		}
 		return p.resultsSoFar, true
